@@ -39,6 +39,7 @@ type World struct {
 	RepoDir     string
 	impls       map[string][]*ssa.Function // interface method key -> implementations in package
 	addrTaken   map[string][]*ssa.Function // signature string -> functions used as values
+	pools       map[*ssa.Global]*poolInfo
 }
 
 func displayName(f *ssa.Function) string {
